@@ -198,7 +198,8 @@ class Samples:
         if self.filetype == "HDF5":
             return self._hdf5_dataset[:, self.burn_in :][key]
         elif self.filetype == "NPY":
-            return self.numpy[:, self.burn_in :][key]
+            # self.numpy already has the burn-in removed
+            return self.numpy[key]
         else:
             raise AttributeError(f"Unkown filetype `{self.filetype}`.")
 
